@@ -245,6 +245,13 @@ func c16LinkForwarding(c *Ctx) *RuleResult {
 	return r
 }
 
+func scopeName(n ast.Node) string {
+	if cc, ok := n.(*ast.CaseClause); ok && len(cc.List) == 1 {
+		return exprStr(cc.List[0])
+	}
+	return "body"
+}
+
 func recvTypeName(u *FuncUnit) string {
 	t := u.Fn.Type().(*types.Signature).Recv().Type()
 	if pt, ok := t.(*types.Pointer); ok {
@@ -569,68 +576,101 @@ func c19ReplayStateID(c *Ctx) *RuleResult {
 				}
 				return true
 			})
-			// returns of a cached reply: `if r, ok := last.(T); ok { ... return r }`
+			// the failure branch: the statement `if st != NFS4_OK { ... }` that follows the call
+			stName := exprStr(as.Lhs[2])
+			var failBranch *ast.IfStmt
 			ast.Inspect(scope, func(m ast.Node) bool {
 				ifs, ok := m.(*ast.IfStmt)
-				if !ok || ifs.Init == nil || ifs.Pos() < as.Pos() {
+				if !ok || failBranch != nil || ifs.Pos() < as.Pos() {
 					return true
 				}
-				ias, ok := ifs.Init.(*ast.AssignStmt)
-				if !ok || len(ias.Rhs) != 1 || len(ias.Lhs) != 2 {
-					return true
+				be, ok := ast.Unparen(ifs.Cond).(*ast.BinaryExpr)
+				if ok && be.Op == token.NEQ && exprStr(be.X) == stName && strings.HasSuffix(exprStr(be.Y), "NFS4_OK") {
+					failBranch = ifs
 				}
-				ta, ok := ast.Unparen(ias.Rhs[0]).(*ast.TypeAssertExpr)
-				if !ok || exprStr(ta.X) != lastName || ta.Type == nil {
-					return true
-				}
-				tv, ok := info.Types[ta.Type]
-				if !ok || !types.IsInterface(tv.Type) {
-					return true // the inner assertion to the OK variant
-				}
-				named, ok := tv.Type.(*types.Named)
-				if !ok {
-					return true
-				}
-				okType := named.Obj().Pkg().Scope().Lookup(named.Obj().Name() + "_NFS4_OK")
-				respFields := map[string]bool{}
-				if okType != nil {
-					stateFields(okType.Type(), 0, respFields)
-				}
-				var common []string
-				for f := range respFields {
-					if reqFields[f] {
-						common = append(common, f)
-					}
-				}
-				rName := exprStr(ias.Lhs[0])
-				ast.Inspect(ifs.Body, func(k ast.Node) bool {
-					ret, ok := k.(*ast.ReturnStmt)
-					if !ok || len(ret.Results) != 1 || exprStr(ret.Results[0]) != rName {
-						return true
-					}
-					construct := constructOf(u, "cached "+named.Obj().Name()+" reply")
-					if len(common) == 0 {
-						r.ok(construct+" (no state ID in common)", posOf(p, ret), "operation type and sequence number identify the request")
-						return true
-					}
-					checked := false
-					for _, g := range GuardsOf(info, ifs.Body, ret) {
-						ast.Inspect(g.Cond, func(q ast.Node) bool {
-							if qc, ok := q.(*ast.CallExpr); ok && calleeOf(info, qc) == isn {
-								checked = true
-							}
-							return true
-						})
-					}
-					if checked {
-						r.ok(construct, posOf(p, ret), "returned only for an error reply or when the request's state ID is the predecessor of the reply's")
-					} else {
-						r.bad(c.Prop, construct, posOf(p, ret), "the cached reply, which carries the successor of a state ID ("+strings.Join(common, ",")+"), is returned without comparing it with the state ID in the request: a different request that reuses the sequence number is answered with another request's reply")
-					}
-					return true
-				})
 				return true
 			})
+			if failBranch == nil {
+				r.bad(c.Prop, constructOf(u, "failure edge of "+exprStr(call.Fun)), posOf(p, as), "the status of startTransaction is not tested right after the call")
+				return true
+			}
+			// decision table of the failure branch: which value is returned under which outcome of the
+			// type assertions on the cached reply and of the state ID comparison
+			d := BuildDTable(u, failBranch.Body)
+			construct := constructOf(u, "cached reply after "+exprStr(call.Fun)+"@"+scopeName(scope))
+			if d.Err != "" {
+				r.Undecided = append(r.Undecided, construct+": "+d.Err)
+				return true
+			}
+			// atoms
+			var isNextKey, okVariantKey string
+			var respIface *types.Named
+			ast.Inspect(failBranch.Body, func(m ast.Node) bool {
+				switch x := m.(type) {
+				case *ast.CallExpr:
+					if calleeOf(info, x) == isn {
+						isNextKey = d.canon(x)
+					}
+				case *ast.AssignStmt:
+					if len(x.Lhs) == 2 && len(x.Rhs) == 1 {
+						if ta, ok := ast.Unparen(x.Rhs[0]).(*ast.TypeAssertExpr); ok && ta.Type != nil && exprStr(ta.X) == lastName {
+							if tv, ok := info.Types[ta.Type]; ok {
+								if named, ok := tv.Type.(*types.Named); ok && types.IsInterface(tv.Type) {
+									respIface = named
+								} else if id, ok := x.Lhs[1].(*ast.Ident); ok && strings.HasSuffix(exprStr(ta.Type), "_NFS4_OK") {
+									_ = id
+									okVariantKey = "ok(" + d.canon(x.Rhs[0]) + ")"
+								}
+							}
+						}
+					}
+				}
+				return true
+			})
+			if respIface == nil {
+				r.bad(c.Prop, construct, posOf(p, failBranch), "a retransmission (status other than NFS4_OK with a cached reply of the same operation) is not answered with the cached reply")
+				return true
+			}
+			okType := respIface.Obj().Pkg().Scope().Lookup(respIface.Obj().Name() + "_NFS4_OK")
+			respFields := map[string]bool{}
+			if okType != nil {
+				stateFields(okType.Type(), 0, respFields)
+			}
+			var common []string
+			for f := range respFields {
+				if reqFields[f] {
+					common = append(common, f)
+				}
+			}
+			cachedMarker := lastName + ".(" // canonical rendering of the asserted cached reply
+			nCached, bad := 0, ""
+			for _, row := range d.Rows {
+				if !strings.Contains(row.Result, cachedMarker) {
+					continue
+				}
+				nCached++
+				if len(common) == 0 {
+					continue
+				}
+				okVariant, known := row.Assign[okVariantKey]
+				isNext := row.Assign[isNextKey]
+				if okVariantKey == "" || !known {
+					okVariant = 1 // not even distinguished: the reply may be the OK variant
+				}
+				if okVariant == 1 && (isNextKey == "" || isNext != 1) {
+					bad = "the cached reply, which carries the successor of a state ID (" + strings.Join(common, ",") + "), can be returned although it is the successful variant and isNextStateID(reply state ID, request state ID) does not hold"
+				}
+			}
+			switch {
+			case nCached == 0:
+				r.bad(c.Prop, construct, posOf(p, failBranch), "a retransmission is never answered with the cached reply")
+			case bad != "":
+				r.bad(c.Prop, construct, posOf(p, failBranch), bad+": a different request that reuses the sequence number is answered with another request's reply")
+			case len(common) == 0:
+				r.ok(construct, posOf(p, failBranch), "operation type and sequence number identify the request (no state ID in common)")
+			default:
+				r.ok(construct, posOf(p, failBranch), fmt.Sprintf("cached reply returned only for an error reply or when the request's state ID is the predecessor of the reply's (%d table rows)", len(d.Rows)))
+			}
 			return true
 		})
 	}
